@@ -10,6 +10,9 @@ import tempfile
 
 
 def main():
+    from verif import linecov
+
+    linecov.start_from_env()
     spec = json.load(open(sys.argv[1]))
     out_path = sys.argv[2]
     from returns.result import Success
